@@ -86,7 +86,12 @@ class Engine:
             eps[s.uid] = [x.uid for x in e]
             lab[s.uid] = []
             for pair in t:
-                pr, tgt = pair[0], pair[1]
+                if isinstance(pair, Sym) and getattr(pair, "tuple_order", None) and len(pair.tuple_order) == 2:
+                    pr, tgt = (pair.fields[k] for k in pair.tuple_order)     # a named-tuple transition
+                elif isinstance(pair, (tuple, list)) and len(pair) == 2:
+                    pr, tgt = pair[0], pair[1]
+                else:
+                    raise Unknown(f"transition {pair!r} is neither a pair nor a two-field named tuple")
                 lab[s.uid].append((self.label(pr), tgt.uid))
                 todo.append(tgt)
             todo.extend(e)
